@@ -12,6 +12,7 @@ import (
 
 	"verifharness/engine"
 	"verifharness/gen"
+	"verifharness/model"
 	"verifharness/stats"
 )
 
@@ -168,6 +169,54 @@ func judgeC07Inner(rec *stats.Rec, c c07Case) (string, string) {
 	return "", ""
 }
 
+// judgeOrder: a selection changes the order in which lints run (the global registry runs them in registration
+// order, a filtered one in name order). Every certificate lint of the registry is run directly, once in the
+// registry's order and once in reverse, each on a fresh parse: the verdicts must agree, and agree with a
+// Lint*Ex run - no lint may leave something behind in the object for another lint to find.
+func judgeOrder(rec *stats.Rec, c engine.Case, reg lint.Registry) (string, string) {
+	if c.Kind != gen.Cert {
+		return "", ""
+	}
+	ls := reg.CertificateLints().Lints()
+	cfg := reg.GetConfiguration()
+	runIn := func(order []*lint.CertificateLint) map[string]model.Verdict {
+		pc, ok := gen.ParseCert(c.DER)
+		if !ok {
+			return nil
+		}
+		out := map[string]model.Verdict{}
+		for _, l := range order {
+			func() {
+				defer func() { _ = recover() }()
+				if r := l.Execute(pc, cfg); r != nil {
+					out[l.Name] = model.Verdict{Status: r.Status, Details: r.Details}
+				}
+			}()
+		}
+		return out
+	}
+	fwd := runIn(ls)
+	if fwd == nil {
+		return "", ""
+	}
+	rev := make([]*lint.CertificateLint, len(ls))
+	for i, l := range ls {
+		rev[len(ls)-1-i] = l
+	}
+	bwd := runIn(rev)
+	names := make([]string, 0, len(fwd))
+	for n := range fwd {
+		names = append(names, n)
+	}
+	sort.Strings(names)
+	for _, n := range names {
+		if b, ok := bwd[n]; ok && b.Status != fwd[n].Status {
+			return "lint-order|" + n, fmt.Sprintf("%s reports %s when the lints run in the registry's order and %s when they run in reverse order (each on a fresh parse)", n, fwd[n].Status, b.Status)
+		}
+	}
+	return "", ""
+}
+
 func TestC07(t *testing.T) {
 	rec := newRec(t, "C07")
 	hm := homeObjects()
@@ -195,6 +244,77 @@ func TestC07(t *testing.T) {
 		}
 	}
 	rec.Exhaustive("every lint alone on its home objects (K per lint)", true)
+	// lint order: the corpus (enumerated), structured certificates, and - for certificates that carry an OID no
+	// home object has, plus every lint's home objects - one mutant in eight of the single-edit neighbourhood
+	g := lint.GlobalRegistry()
+	for ci, o := range gen.LoadCorpus().Certs {
+		if !stats.Mine(ci) {
+			continue
+		}
+		c := engine.Case{Kind: gen.Cert, DER: o.DER, Base: o.Name, Note: "lint-order"}
+		rec.Eval()
+		rec.Class("order_corpus")
+		if sig, msg := judgeOrder(rec, c, g); msg != "" {
+			if rec.Report("c07-order", sig, msg, c) {
+				t.Fatalf("c07 %s: %s: %s", o.Name, sig, msg)
+			}
+		}
+	}
+	{
+		share := uint64(stats.Scale(4, 1))
+		if v := getenv("VERIF_C07_ORDER_SHARE"); v != "" {
+			share = 1
+		}
+		cover := homeCover(2)
+		var bases []sweepBase
+		hc := map[string]bool{}
+		for _, b := range append(append([]sweepBase{}, cover...), featureCover(cover)...) {
+			if b.Obj.Kind != gen.Cert || hc[b.Obj.Name] {
+				continue
+			}
+			hc[b.Obj.Name] = true
+			// every lint whose body runs on the base (not only the ones it was chosen for): they are the ones that can meet
+			var ls []string
+			for i, o := range gen.LoadCorpus().Certs {
+				if o.Name != b.Obj.Name {
+					continue
+				}
+				for _, l := range registryLints(g) {
+					if l.Kind == "cert" && homeClass[l.Name][i] >= 1 && l.Name != "e_rsa_fermat_factorization" {
+						ls = append(ls, l.Name)
+					}
+				}
+				break
+			}
+			if len(ls) > 1 {
+				bases = append(bases, sweepBase{Obj: b.Obj, Lints: ls, Under: b.Under})
+			}
+		}
+		gen.OIDFamilyMode = !stats.Thorough()
+		sweepSelect = func(der []byte) bool { return (stats.Hash(der)+verifSeed())%share == 0 }
+		defer func() { sweepSelect = nil }()
+		sweepBases(rec, bases, nil, false, "c07-order", func(ec engine.Case, run *engine.Run) (string, string) {
+			if !run.Parsed {
+				return "", ""
+			}
+			rec.Class("order_sweep")
+			return judgeOrder(rec, ec, run.Reg)
+		}, func(s string) { t.Fatalf("%s", s) })
+		gen.OIDFamilyMode = false
+		sweepSelect = nil
+	}
+	rapidRun(t, "order-structured", perShard(stats.Scale(3000, 100000)), func(rt *rapid.T) {
+		sc, ok := drawAnyStructured(rt)
+		if !ok {
+			return
+		}
+		c := engine.Case{Kind: gen.Cert, DER: sc.DER, Base: sc.Base, Ops: append([]string{"structured:" + sc.Fam}, sc.Desc...), Note: "lint-order"}
+		rec.Eval()
+		rec.Class("order_structured")
+		if sig, msg := judgeOrder(rec, c, g); msg != "" {
+			fail(rt, rec, "c07-order", sig, msg, c)
+		}
+	})
 	// configuration set on the parent before filtering (inherited by the filtered registry)
 	sens := sensitiveObjects()
 	cis := engine.Configurables()
@@ -267,6 +387,18 @@ func TestC07(t *testing.T) {
 }
 
 func init() {
+	registerReplayer("c07-order", func(rec *stats.Rec, raw json.RawMessage) (string, string) {
+		var c engine.Case
+		if err := json.Unmarshal(raw, &c); err != nil {
+			return "decode", err.Error()
+		}
+		reg, _, restore, err := engine.BuildRegistry(c)
+		defer restore()
+		if err != nil {
+			return "", ""
+		}
+		return judgeOrder(rec, c, reg)
+	})
 	registerReplayer("c07", func(rec *stats.Rec, raw json.RawMessage) (string, string) {
 		var c c07Case
 		if err := json.Unmarshal(raw, &c); err != nil {
